@@ -297,6 +297,14 @@ class Run:
     inp_digest: bytes = attrs.field(init=False, default=b"")
     """The input digest, which some steps may use to decide whether cached results are valid."""
 
+    start_inp_hashes: dict = attrs.field(init=False, factory=dict)
+    """The hashes of the input files as validated right before the command started, keyed by path.
+
+    They are the baseline for the check after the command:
+    the hash stored in the workflow may have been updated in the meantime,
+    by another step that noticed the same file changing.
+    """
+
     out_missing: list[str] = attrs.field(init=False, factory=list)
     """List of expected output files that were not created."""
 
